@@ -52,6 +52,7 @@ ClashKinds(rs) ==
      : j \in (i + 1)..Len(rs)} : i \in 1..Len(rs)}
 SigOf(op, r) == IF op.k = "new" THEN <<"new", Len(op.recs), ClashKinds(op.recs)>>
                 ELSE IF op.k = "upgrade" THEN <<"upgrade", Len(op.data), Cardinality({op.data[i][2] : i \in 1..Len(op.data)})>>
+                ELSE IF op.loader = "reverse" THEN <<"reverse", r.out[1], [i \in 1..Len(op.data) |-> <<op.data[i][2], Len(op.data[i][1])>>]>>
                 ELSE <<op.loader, IF r.out[1] = "raise" THEN r.out[2] ELSE r.out[1], Len(op.data)>>
 BInit == hist = <<>> /\ last = <<>> /\ res = [out |-> <<>>, conv |-> EmptyConv(D)] /\ sigs = <<>>
 Do(op, r) == /\ hist' = Append(hist, op) /\ last' = (IF r.out[1] = "raise" THEN <<"raise", r.out[2]>> ELSE r.out) /\ res' = r
